@@ -30,6 +30,7 @@ class C01(SweepProp):
         'law (steady slab with uniform heating), i.e. the duct solution of C11 '
         'is used as the measuring instrument for the wall flux']
     profile = {'const_prob': 0.65, 'misalign_prob': 0.0,
+               'n_duct': [1, 1, 1, 2, 3],
                'n_ring_core': [1, 1, 2, 2, 3],
                'gap_models': ['flow', 'none', 'none', 'no_flow',
                               'duct_average'],
